@@ -425,7 +425,7 @@ func report(verif, prop, tier string, seed int, results []*FuncResult, obs []*Ob
 		"obligations": total, "discharged": discharged,
 		"checker_cmd":  fmt.Sprintf("govc check -prop %s -tier %s (VC generation over go/ssa; z3-new, cvc5, z3 in turn, %ds per query)", prop, tier, int(to.Seconds())),
 		"trusted_base": tb, "by_backend": byBackend, "by_kind": byKind, "solver_s": round2(solverS), "load_s": round2(loadSecs), "vcgen_s": round2(genSecs),
-		"vacuity_guards": map[string]int{"checked": covers, "refuted": vacuous, "infeasible_paths_seen": deadPaths},
+		"vacuity_guards":           map[string]int{"checked": covers, "refuted": vacuous, "infeasible_paths_seen": deadPaths},
 		"functions_under_contract": funcs, "samples": samples, "known_findings": knownLines,
 		"explanation": "every obligation is generated from /repo's current SSA against the //@ contracts in zz_contracts_verif.go; discharged = solver answered unsat for the negated goal",
 	}
